@@ -35,6 +35,8 @@ type Member struct {
 	ClientID         string
 	SessionTimeout   time.Duration
 	RebalanceTimeout time.Duration
+	joinAt           time.Duration
+	joinFault        string
 	Protocols        []GProto
 	Assignment       []byte
 	joinDone         func(rc.Msg) // held JoinGroup response
@@ -93,6 +95,17 @@ type Group struct {
 	Left         []string // member ids that sent LeaveGroup
 	Evicted      []string // member ids removed by session expiry / fault
 	Heartbeats   []HB
+	// AnsweredGone: successful JoinGroup responses whose connection the client
+	// had already closed (the server never did) when the join completed
+	AnsweredGone []AnsweredGone
+	LongestHold  time.Duration // longest time a successful join was held
+}
+
+// AnsweredGone describes a join the client walked away from.
+type AnsweredGone struct {
+	Member, ClientID    string
+	ReqAt, ClosedAt, At time.Duration
+	Rebalance           time.Duration
 }
 
 // HB is one heartbeat as seen by the coordinator.
@@ -202,6 +215,13 @@ func (c *Cluster) resetSession(g *Group, m *Member) {
 	}
 	id := m.ID
 	m.session = c.S.After(m.SessionTimeout, "session-expiry:"+id, func() {
+		if g.Members[id] == m && m.joinDone != nil {
+			// a member whose JoinGroup is being held is not expected to
+			// heartbeat: the coordinator keeps it until the join completes
+			// (GroupCoordinator.shouldKeepMemberAlive)
+			c.resetSession(g, m)
+			return
+		}
 		if g.Members[id] == m {
 			c.S.Count("session-expired")
 			c.removeMember(g, m, "expired")
@@ -365,6 +385,14 @@ func (c *Cluster) maybeCompleteJoin(g *Group, timedOut bool) {
 	for _, m := range ms {
 		d := m.joinDone
 		m.joinDone = nil
+		if h := c.S.Now() - m.joinAt; h > g.LongestHold {
+			g.LongestHold = h
+		}
+		if m.Conn != nil && m.joinFault == "" {
+			if at, ok := m.Conn.ClosedByClientOnly(); ok {
+				g.AnsweredGone = append(g.AnsweredGone, AnsweredGone{Member: m.ID, ClientID: m.ClientID, ReqAt: m.joinAt, ClosedAt: at, At: c.S.Now(), Rebalance: m.RebalanceTimeout})
+			}
+		}
 		m.JoinedGen = g.Generation
 		m.Assignment = nil
 		c.resetSession(g, m)
@@ -489,6 +517,7 @@ func (c *Cluster) joinGroup(b *Broker, cn *Conn, r *Req, done func(rc.Msg)) {
 		m.joinDone = nil
 	}
 	m.joinDone = done
+	m.joinAt, m.joinFault = c.S.Now(), r.Fault
 	m.joinVer = r.Hdr.APIVersion
 	if g.Members[m.ID] == nil {
 		g.Members[m.ID] = m
